@@ -1178,6 +1178,95 @@ def run_three_writers(ctx, version, label):
              sample={'format': 'v%d' % version, 'kind': 'three writers, lock handed over'})
 
 
+def run_defrag_during_store(ctx, version, label):
+    """A defragmentation run while a store is in progress (schedule, deterministic).  Writer A stores a small tile
+    into an existing bundle and is held inside the bundle's critical section - lock taken, record appended (v2: still
+    in the buffer of the file object), index entry not yet written.  The main thread runs defrag_compact_cache with
+    its DEFAULT thresholds: the bundle has no garbage, every bundle is skipped, nothing is rewritten.  Then writer B
+    stores another tile of the same bundle; it gets PAUSE seconds (a correct lock makes it wait for A), then A is
+    released.  Oracle: the statement - bundle valid (with header accounting: there was no fault), every address
+    returns the bytes stored; the defragmentation changed no tile."""
+    import mapproxy.cache.compact as cc
+    d = ctx.tmpdir('c19d')
+    cache_dir = os.path.join(d, 'cache')
+    real = Real(version, cache_dir)
+    PAUSE = 0.7
+    data = {(0, 0, 3): bytes([48]) * 500, (1, 0, 3): bytes([65]) * 1200, (2, 0, 3): bytes([66]) * 900}
+    real.store([((0, 0, 3), list(data[(0, 0, 3)]))])
+    a_inside, a_release = threading.Event(), threading.Event()
+    th, errors = {}, []
+    upd_cls, upd_name = (cc.BundleV2, '_update_tile_offset') if version == 2 else (cc.BundleIndexV1, 'update_tile_offset')
+    orig_upd = getattr(upd_cls, upd_name)
+
+    def paused(self, *a, **kw):
+        if threading.current_thread() is th.get('A'):
+            a_inside.set()
+            a_release.wait(20)
+        return orig_upd(self, *a, **kw)
+
+    def store(name, coord):
+        r = Real(version, cache_dir).store([(coord, list(data[coord]))])
+        if r != ('ok', True):
+            errors.append('%s: %r' % (name, r))
+    setattr(upd_cls, upd_name, paused)
+    try:
+        th['A'] = threading.Thread(target=store, args=('A', (1, 0, 3)), daemon=True)
+        th['B'] = threading.Thread(target=store, args=('B', (2, 0, 3)), daemon=True)
+        th['A'].start()
+        if not a_inside.wait(20):
+            ctx.problem('harness', 'defrag-during-store (v%d): writer A did not reach its index update' % version, None)
+            return
+        before = real.load((0, 0, 3))
+        res = real.defrag(0.1, 1024 * 1024)
+        th['B'].start()
+        th['B'].join(PAUSE)
+        b_overtook = not th['B'].is_alive()
+        a_release.set()
+        th['A'].join(30)
+        th['B'].join(30)
+    finally:
+        a_release.set()
+        setattr(upd_cls, upd_name, orig_upd)
+    if any(t.is_alive() for t in th.values()):
+        ctx.problem('harness', 'defrag-during-store schedule (v%d) did not terminate' % version, None)
+        return
+    replay = {'format': 'v%d' % version, 'label': label,
+              'schedule': ['store_tile(0,0,3) 500 bytes (bundle exists)',
+                           'A store_tile(1,0,3) 1200 bytes: held between record append and index write (lock held)',
+                           'defrag_compact_cache(cache) with default thresholds -> %s, decisions %r' % (
+                               res[0], sorted(res[-1].items())),
+                           'B store_tile(2,0,3) 900 bytes: %s' % (
+                               'finished while A was still inside the bundle' if b_overtook else 'waited for A'),
+                           'A released'], 'errors': errors}
+    ctx.count('race=defrag-during-store,v%d=%s' % (version, 'B-overtook' if b_overtook else 'B-waited'))
+    if res[0] != 'ok' or any(res[1].values()):
+        ctx.fail('v%d,defrag-during-store' % version,
+                 'defragmentation with default thresholds of a bundle without garbage: %r' % (res,), replay)
+    if before != ('data', data[(0, 0, 3)]):
+        ctx.fail('v%d,defrag-during-store' % version,
+                 'load_tile(0,0,3) while A is inside the bundle returns %s' % (short(before),), replay)
+    when = 'after a store, a defragmentation (everything skipped) during it, and a second store'
+    check_files(ctx, real, replay, when, strict=True, sig_invalid='v%d,defrag-during-store' % version)
+    for coord, want in sorted(data.items()):
+        got = real.load(coord)
+        if got != ('data', want):
+            ctx.fail('v%d,defrag-during-store' % version,
+                     '%s: load_tile%r returns %s, stored were %d bytes' % (when, coord, short(got), len(want)),
+                     dict(replay, address=list(coord), got=short(got)))
+    if errors:
+        ctx.fail('v%d,defrag-during-store' % version, '%s: %r' % (when, errors), replay)
+    # and the full rewrite afterwards changes nothing
+    res2 = real.defrag(0.0, 0)
+    for coord, want in sorted(data.items()):
+        got = real.load(coord)
+        if res2[0] != 'ok' or got != ('data', want):
+            ctx.fail('v%d,defrag-during-store' % version,
+                     'then defrag_compact_cache(0, 0) -> %s: load_tile%r returns %s, stored were %d bytes' % (
+                         res2[0], coord, short(got), len(want)), dict(replay, address=list(coord), got=short(got)))
+    ctx.case(('race', version, 'defrag-during-store'), nontrivial=True,
+             sample={'format': 'v%d' % version, 'kind': 'defragmentation (all skipped) while a store holds the bundle lock'})
+
+
 def run_stale_temp_bundle(ctx, version, label):
     """Three bundles with garbage.  A first defragmentation (thresholds 0/0) is interrupted when it is about to swap
     the third bundle: the filled temp bundle stays behind.  The second bundle gets garbage again.  The next run uses
@@ -1651,7 +1740,8 @@ def run(ctx):
             ctx.problem('harness', 'fault case new-bundle (v%d) could not be run: %r' % (version, ex), None)
     for version in (2, 1):
         for fn, name in ((run_three_writers, 'lock-handover'), (run_big_tile, 'big-tile'),
-                         (run_stale_temp_bundle, 'stale-temp-bundle')):
+                         (run_stale_temp_bundle, 'stale-temp-bundle'),
+                         (run_defrag_during_store, 'defrag-during-store')):
             try:
                 fn(ctx, version, name)
             except Exception as ex:   # noqa
